@@ -355,6 +355,11 @@ structure StepInfo where
       (`reversed(from_path) ++ to_path`) -/
   walkExtent : Rat
   walkStretches : Nat
+  /-- `split` (even split between two known gnodes), `dangling-start` / `dangling-end` (only one known gnode is reached:
+      the gnode is put at the distance of the path from it, no stretch) -/
+  kind : String := "split"
+  /-- number of edges of the path(s) the position was derived along -/
+  walkLen : Nat := 0
 deriving Repr
 
 /-- `assign_stretchy1`; `none` = returned False (both closest known gnodes are the dummies) -/
@@ -370,12 +375,12 @@ def assignStretchy1 (g : PGraph) (st : St) (v : String) : Except String (Option 
     let some tp := aget st.pos toG | throw "unknown-to-pos"
     let pos ← setPos st.pos v (tp - pathDist toPath)
     let u ← remove st.unknown v
-    return some (⟨pos, u⟩, none)
+    return some (⟨pos, u⟩, some ⟨v, fromG, toG, 0, 0, 0, pathDist toPath, pathStretches toPath, "dangling-start", toPath.length⟩)
   if toG == "end" then
     let some fp := aget st.pos fromG | throw "unknown-from-pos"
     let pos ← setPos st.pos v (fp + pathDist fromPath)
     let u ← remove st.unknown v
-    return some (⟨pos, u⟩, none)
+    return some (⟨pos, u⟩, some ⟨v, fromG, toG, 0, 0, 0, pathDist fromPath, pathStretches fromPath, "dangling-end", fromPath.length⟩)
   let path ← longestPath g st.pos fromG toG
   let some tp := aget st.pos toG | throw "unknown-to-pos"
   let some fp := aget st.pos fromG | throw "unknown-from-pos"
@@ -389,7 +394,8 @@ def assignStretchy1 (g : PGraph) (st : St) (v : String) : Except String (Option 
   let (x, st1) ← walkAssign (·.src) stretch fromPath.reverse fp st
   let (_, st2) ← walkAssign (·.dst) stretch toPath x st1
   return some (st2, some ⟨v, fromG, toG, extent, separation, stretches,
-    pathDist fromPath + pathDist toPath, pathStretches fromPath + pathStretches toPath⟩)
+    pathDist fromPath + pathDist toPath, pathStretches fromPath + pathStretches toPath, "split",
+    fromPath.length + toPath.length⟩)
 
 /-- `assign_stretchy`: the worklist.  `for n in unknown:` until something changes; the flag `changes` of the code is
     carried along (`chg`): the `while` loop ends when a full scan changed nothing.  Every productive round removes at
@@ -451,7 +457,7 @@ def solve (g0 : PGraph) : Except String Solved := do
   let st ← assignFixed g (st.unknown.length + 1) st
   let (st, steps) ← assignStretchy g (st.unknown.length + 1) st []
   if !st.unknown.isEmpty then throw s!"cannot-assign:{",".intercalate st.unknown}"
-  let fit := steps.filterMap (fun s => if s.extent > s.separation then some s!"will-not-fit:{s.src}>{s.dst}" else none)
+  let fit := steps.filterMap (fun s => if s.kind == "split" && s.extent > s.separation then some s!"will-not-fit:{s.src}>{s.dst}" else none)
   return ⟨g, st.pos, path, steps, checkPositions g st.pos, pruneMessages g0 ++ fit, cert⟩
 
 /-- positions of all schematic nodes on one axis: `pos[n] = self[cnodes[n]].pos` (a node that is in no gnode makes the
